@@ -545,6 +545,14 @@ def emit():
         m = mod("swh.model.model")
         tm = parse("swh/model/model.py")
         w("(* fields whose attr.ib carries validator=generic_type_validator (read from the class bodies, MRO order) *)")
+        factories = set()
+        for node in tm.body:
+            if isinstance(node, ast.FunctionDef) and node.name != "generic_type_validator":
+                for call in ast.walk(node):
+                    if isinstance(call, ast.Call) and any(
+                            kw.arg == "validator" and any(isinstance(n, ast.Name) and n.id == "generic_type_validator" for n in ast.walk(kw.value))
+                            for kw in call.keywords):
+                        factories.add(node.name)
         for cn in SCHEMA_CLASSES:
             cls = getattr(m, cn)
             flagged = set()
@@ -557,6 +565,11 @@ def emit():
                         for kw in st.value.keywords:
                             if kw.arg == "validator" and any(isinstance(n, ast.Name) and n.id == "generic_type_validator" for n in ast.walk(kw.value)):
                                 flagged.add(st.targets[0].id)
+                        # the attribute may be declared through a small module-level factory (`id = _id_attrib()`): look
+                        # for the validator in the body of the function that is called
+                        fn = st.value.func
+                        if isinstance(fn, ast.Name) and fn.id in factories:
+                            flagged.add(st.targets[0].id)
             names = [a.name for a in attr.fields(cls) if a.name in flagged]
             w(f"Definition GENERIC_VALIDATED_{cn} : list (list N) := " + coq_list(coq_bytes(n) for n in names) + ".  (* " + " ".join(names) + " *)")
     group(["GENERIC_VALIDATED_*"], g_generic)
